@@ -120,6 +120,7 @@ def run_check(prop, tier):
     deadline = spec["deadline"][tier]
     runs = [r for r in spec["runs"] if tier in r.get("tiers", ("quick", "thorough"))]
     built = {}
+    foreign = 0
     for ri, run in enumerate(runs):
         name = run.get("name", run["plan"])
         flav = (run.get("san", "asan"), run.get("hooks", False), run.get("nosse", False), tuple(run["srcs"]))
@@ -162,6 +163,10 @@ def run_check(prop, tier):
         # ---- violations: de-duplicate, replay before reporting ----
         seen = {}
         for v in res["V"]:
+            # a run shared between properties only reports the failure classes that belong to this property
+            if run.get("only_sites") and not re.search(run["only_sites"], v["site"]):
+                foreign += 1
+                continue
             seen.setdefault((v["key"], v["site"]), v)
         nviol += len(seen)
         replayed = 0
@@ -207,7 +212,7 @@ def run_check(prop, tier):
         "rule": spec["rule"], "samples": samples[:8] or ["(none)"],
         "exhaustive": bool(exhaustive), "bounds_completed": bounds_done, "bounds_skipped": bounds_skipped,
         "extra_counters": extra, "notes": notes,
-        "violations_total": nviol, "violations_known": len(known_hits), "violations_new": len(unknown),
+        "violations_of_other_properties_ignored": foreign, "violations_total": nviol, "violations_known": len(known_hits), "violations_new": len(unknown),
     }
     ev = {"property_id": prop, "tier": tier, "seed": seed, "level": spec["level"], "coverage": cov,
           "assumptions": spec["assumptions"], "violations": len(unknown), "wall_s": round(time.time() - t0, 2)}
